@@ -64,23 +64,36 @@ def _other_mutating_call(node):
     return False
 
 
+def _kw_const(call, key):
+    """the string constant passed as keyword `key`, '' when there is none / it is not a constant"""
+    for kw in call.keywords:
+        if kw.arg == key and isinstance(kw.value, ast.Constant) and isinstance(kw.value.value, str):
+            return kw.value.value
+    return ""
+
+
 def _events_of_expr(node, mutators):
-    """events produced by evaluating an expression, in source order"""
+    """events produced by evaluating an expression, in source order.  An event is a string whose first
+    letter is its kind; the rest is detail (`I:<ctx>`, `C:<container>:<how>`, `K:<helper>`, `P:<mutator>`,
+    `L:<container>` = subscript load of an own container, which raises KeyError for an unknown name)"""
     ev = []
     for sub in ast.walk(node):
         name = _self_call(sub)
         if name == "_insert_id":
-            ev.append((sub.lineno, sub.col_offset, "I"))
+            ev.append((sub.lineno, sub.col_offset, "I:" + _kw_const(sub, "ctx")))
         elif name == "_remove_id":
             ev.append((sub.lineno, sub.col_offset, "R"))
         elif name is not None and name.startswith("_check_"):
-            ev.append((sub.lineno, sub.col_offset, "K"))
+            ev.append((sub.lineno, sub.col_offset, "K:" + name))
         elif name in mutators:
             ev.append((sub.lineno, sub.col_offset, "P:" + name))
         elif _container_method_call(sub):
-            ev.append((sub.lineno, sub.col_offset, "C"))
+            ev.append((sub.lineno, sub.col_offset, f"C:{_container_method_call(sub)}:{sub.func.attr}"))
         elif _other_mutating_call(sub):
             ev.append((sub.lineno, sub.col_offset, "W"))
+        elif (isinstance(sub, ast.Subscript) and isinstance(sub.ctx, ast.Load)
+              and _is_self_attr(sub.value, CONTAINERS)):
+            ev.append((sub.lineno, sub.col_offset, "L:" + sub.value.attr))
     return [e for _, _, e in sorted(ev)]
 
 
@@ -88,11 +101,24 @@ def _contains_raise(stmt):
     return any(isinstance(n, ast.Raise) for n in ast.walk(stmt))
 
 
+def _raised(stmt):
+    """`G:<class>` for the exception classes a rejecting statement raises (`raise Cls(...)` / `raise Cls`)"""
+    out = []
+    for n in ast.walk(stmt):
+        if isinstance(n, ast.Raise):
+            e = n.exc.func if isinstance(n.exc, ast.Call) else n.exc
+            if not isinstance(e, ast.Name):
+                raise Unsupported(f"raise of a non-name at line {n.lineno}")
+            if e.id not in out:
+                out.append(e.id)
+    return "G:" + "+".join(out)
+
+
 def _target_events(t):
     """a store / delete target"""
     if isinstance(t, ast.Subscript):
         if _is_self_attr(t.value, CONTAINERS):
-            return ["C"]
+            return [f"C:{t.value.attr}:{'del' if isinstance(t.ctx, ast.Del) else 'set'}"]
         if _is_self_attr(t.value, {"_ids"}):
             raise Unsupported("direct write to self._ids")
         return ["W"]  # item of some other object (a stoichiometry dict)
@@ -134,27 +160,65 @@ def _events(stmts, mutators):
             if st.value is not None:
                 out += _events_of_expr(st.value, mutators)
         elif isinstance(st, ast.Raise):
-            out.append("G")
+            out.append(_raised(st))
         elif isinstance(st, ast.If):
             inner = _events_of_expr(st.test, mutators) + _events(st.body, mutators) + _events(st.orelse, mutators)
-            if _contains_raise(st) and not any(e not in ("G",) for e in inner):
-                out.append("G")
+            if _contains_raise(st) and not any(e[0] not in "GL" for e in inner):
+                out += [e for e in inner if e[0] == "L"] + [_raised(st)]
             else:
                 out += inner
         elif isinstance(st, ast.For):
             inner = _events_of_expr(st.iter, mutators) + _events(st.body, mutators) + _events(st.orelse, mutators)
-            if _contains_raise(st) and not any(e not in ("G",) for e in inner):
-                out.append("G")
+            if _contains_raise(st) and not any(e[0] not in "GL" for e in inner):
+                out += [e for e in inner if e[0] == "L"] + [_raised(st)]
             else:
                 out += inner
     return out
 
 
-def extract(model_py: Path):
+def _field_compare(node):
+    """(name, compared?) of one annotated dataclass field `name: T = field(..., compare=False)`"""
+    if not (isinstance(node, ast.AnnAssign) and isinstance(node.target, ast.Name)):
+        raise Unsupported(f"class-level statement {type(node).__name__} at line {node.lineno}")
+    compared = True
+    v = node.value
+    if isinstance(v, ast.Call) and isinstance(v.func, ast.Name) and v.func.id == "field":
+        for kw in v.keywords:
+            if kw.arg == "compare":
+                if not isinstance(kw.value, ast.Constant) or not isinstance(kw.value.value, bool):
+                    raise Unsupported(f"compare= of field {node.target.id} is not a literal")
+                compared = kw.value.value
+    return node.target.id, compared
+
+
+def eq_fields(cls):
+    """the fields the generated `__eq__` of `@dataclass class Model` compares, in order"""
+    for d in cls.decorator_list:
+        f = d.func if isinstance(d, ast.Call) else d
+        if isinstance(f, ast.Name) and f.id == "dataclass":
+            if isinstance(d, ast.Call):
+                for kw in d.keywords:
+                    if kw.arg == "eq" and not (isinstance(kw.value, ast.Constant) and kw.value.value is True):
+                        raise Unsupported("dataclass(eq=...) other than True")
+            break
+    else:
+        raise Unsupported("class Model is not a dataclass")
+    if any(isinstance(n, ast.FunctionDef) and n.name == "__eq__" for n in cls.body):
+        raise Unsupported("class Model defines __eq__ by hand")
+    fields = [_field_compare(n) for n in cls.body if isinstance(n, (ast.AnnAssign, ast.Assign))]
+    return [n for n, c in fields if c]
+
+
+def _model_class(model_py: Path):
     tree = ast.parse(model_py.read_text())
     cls = next((n for n in tree.body if isinstance(n, ast.ClassDef) and n.name == "Model"), None)
     if cls is None:
         raise Unsupported("class Model not found")
+    return tree, cls
+
+
+def extract(model_py: Path):
+    _, cls = _model_class(model_py)
     methods = [n for n in cls.body if isinstance(n, ast.FunctionDef) and n.name.startswith(PREFIXES)]
     names = [m.name for m in methods]
     if not names:
@@ -173,8 +237,9 @@ def extract(model_py: Path):
         ev = _events(m.body, set(names))
         if "X" in ev:
             raise Unsupported(f"{m.name} assigns self._cache directly")
-        first_id = next((i for i, e in enumerate(ev) if e in ("I", "R")), None)
-        first_c = next((i for i, e in enumerate(ev) if e == "C"), None)
+        kinds = [e[0] for e in ev]
+        first_id = next((i for i, e in enumerate(kinds) if e in "IR"), None)
+        first_c = next((i for i, e in enumerate(kinds) if e == "C"), None)
         if first_id is None and first_c is None:
             order = "none"
         elif first_c is None:
@@ -183,9 +248,9 @@ def extract(model_py: Path):
             order = "containerOnly"
         else:
             order = "idFirst" if first_id < first_c else "containerFirst"
-        first_write = next((i for i, e in enumerate(ev) if e in ("I", "R", "C", "W") or e.startswith("P:")), len(ev))
-        checks = sum(1 for e in ev[:first_write] if e in ("G", "K"))
-        fw = ev[first_write] if first_write < len(ev) else None
+        first_write = next((i for i, e in enumerate(kinds) if e in "IRCWP"), len(ev))
+        checks = sum(1 for e in kinds[:first_write] if e in "GK")
+        fw = kinds[first_write] if first_write < len(ev) else None
         first_kind = {"I": "id", "R": "id", "C": "container", "W": "component", None: "none"}.get(fw, "delegate")
         rows.append({
             "name": m.name,
@@ -195,11 +260,187 @@ def extract(model_py: Path):
             "first": first_kind,
             "delegates": [e[2:] for e in ev if e.startswith("P:")],
             "events": ev,
+            # rejecting statements that come AFTER the first write (a call rejected there is half applied
+            # unless the model proves the statement cannot fire)
+            "late_guards": sum(1 for e in kinds[first_write + 1:] if e in "GK"),
+            # exception classes of the explicit rejecting statements before the first write
+            "raises_before": [c for e in ev[:first_write] if e[0] == "G" for c in e[2:].split("+")],
+            # own containers subscripted (KeyError for an unknown name) before the first write
+            "loads_before": [e[2:] for e in ev[:first_write] if e[0] == "L"],
+            "ctx": [e[2:] for e in ev if e[0] == "I"],
+            "containers": [e.split(":")[1] for e in ev if e[0] == "C"],
         })
     return rows
 
 
-def render(rows) -> str:
+# --------------------------------------------------------------------------- `_check_function_arity` and the sanity-check chain
+
+
+def _arity_expr(node, env):
+    """Lean Bool/Nat expression for the small expression language of `_check_function_arity`"""
+    if isinstance(node, ast.Name):
+        if node.id in env:
+            return env[node.id]
+        if node.id == "arity":
+            return ("nat", "arity")
+        raise Unsupported(f"name {node.id} in _check_function_arity")
+    if isinstance(node, ast.Attribute) and isinstance(node.value, ast.Name) and env.get(node.value.id) == ("spec",):
+        if node.attr in ("args", "defaults", "kwonlyargs", "varargs"):
+            return ("field", node.attr)
+        raise Unsupported(f"argspec.{node.attr}")
+    if isinstance(node, ast.Call) and isinstance(node.func, ast.Name) and node.func.id == "len" and len(node.args) == 1:
+        f = _arity_expr(node.args[0], env)
+        if f == ("field", "args"):
+            return ("nat", "sig.nargs")
+        if f == ("field", "defaults"):
+            return ("nat", "sig.defaults.getD 0")
+        if f == ("field", "kwonlyargs"):
+            return ("nat", "sig.kwonly")
+        raise Unsupported("len() of something else")
+    if isinstance(node, ast.Call) and isinstance(node.func, ast.Name) and node.func.id == "bool" and len(node.args) == 1:
+        f = _arity_expr(node.args[0], env)
+        if f[0] != "bool":
+            raise Unsupported("bool() of a non-boolean")
+        return f
+    if isinstance(node, ast.BinOp) and isinstance(node.op, ast.Add):
+        l, r = _arity_expr(node.left, env), _arity_expr(node.right, env)
+        if l[0] == r[0] == "nat":
+            return ("nat", f"({l[1]} + {r[1]})")
+        raise Unsupported("+ on non-numbers")
+    if isinstance(node, ast.Compare) and len(node.ops) == 1:
+        op, l, rn = node.ops[0], _arity_expr(node.left, env), node.comparators[0]
+        if isinstance(op, (ast.IsNot, ast.Is)) and isinstance(rn, ast.Constant) and rn.value is None:
+            if l == ("field", "varargs"):
+                b = "sig.varargs"
+            elif l == ("field", "defaults"):
+                b = "sig.defaults.isSome"
+            else:
+                raise Unsupported("is None on something else")
+            return ("bool", b if isinstance(op, ast.IsNot) else f"(!{b})")
+        if isinstance(op, ast.Eq):
+            r = _arity_expr(rn, env)
+            if l[0] == r[0] == "nat":
+                return ("bool", f"({l[1]} == {r[1]})")
+        raise Unsupported("comparison form")
+    if isinstance(node, ast.BoolOp):
+        parts = [_arity_expr(v, env) for v in node.values]
+        if any(p[0] != "bool" for p in parts):
+            raise Unsupported("and/or on non-booleans")
+        return ("bool", "(" + (" && " if isinstance(node.op, ast.And) else " || ").join(p[1] for p in parts) + ")")
+    if isinstance(node, ast.Constant) and isinstance(node.value, bool):
+        return ("bool", "true" if node.value else "false")
+    raise Unsupported(f"expression {ast.dump(node)[:60]} in _check_function_arity")
+
+
+def check_function_arity(tree) -> str:
+    """body of the module-level `_check_function_arity(function, arity)` as a Lean expression over `sig`, `arity`:
+    a sequence of `name = <expr>` / `if <cond>: return <bool>` and a final `return <bool expr>`"""
+    fn = next((n for n in tree.body if isinstance(n, ast.FunctionDef) and n.name == "_check_function_arity"), None)
+    if fn is None:
+        raise Unsupported("_check_function_arity not found")
+    if [a.arg for a in fn.args.args] != ["function", "arity"]:
+        raise Unsupported("_check_function_arity signature")
+    env = {}
+    clauses = []
+    final = None
+    for st in fn.body:
+        if isinstance(st, ast.Expr) and isinstance(st.value, ast.Constant):
+            continue
+        if final is not None:
+            raise Unsupported("statement after the final return")
+        if isinstance(st, ast.Assign) and len(st.targets) == 1 and isinstance(st.targets[0], ast.Name):
+            v = st.value
+            if (isinstance(v, ast.Call) and isinstance(v.func, ast.Attribute) and v.func.attr == "getfullargspec"
+                    and len(v.args) == 1 and isinstance(v.args[0], ast.Name) and v.args[0].id == "function"):
+                env[st.targets[0].id] = ("spec",)
+            else:
+                env[st.targets[0].id] = _arity_expr(v, env)
+        elif isinstance(st, ast.If) and not st.orelse and len(st.body) == 1 and isinstance(st.body[0], ast.Return):
+            c, r = _arity_expr(st.test, env), _arity_expr(st.body[0].value, env)
+            if c[0] != "bool" or r[0] != "bool":
+                raise Unsupported("if/return types")
+            clauses.append((c[1], r[1]))
+        elif isinstance(st, ast.Return):
+            r = _arity_expr(st.value, env)
+            if r[0] != "bool":
+                raise Unsupported("final return type")
+            final = r[1]
+        else:
+            raise Unsupported(f"statement {type(st).__name__} in _check_function_arity")
+    if final is None:
+        raise Unsupported("_check_function_arity has no final return")
+    out = final
+    for c, r in reversed(clauses):
+        out = f"if {c} then {r} else {out}"
+    return out
+
+
+def arity_checked(cls):
+    """the operands of the `it.chain(...)` the sanity-check loop of `_create_cache` walks, in order, and the
+    exception it raises"""
+    cc = next((n for n in cls.body if isinstance(n, ast.FunctionDef) and n.name == "_create_cache"), None)
+    if cc is None:
+        raise Unsupported("_create_cache not found")
+    loops = [n for n in ast.walk(cc) if isinstance(n, ast.For) and any(
+        isinstance(c, ast.Call) and isinstance(c.func, ast.Name) and c.func.id == "_check_function_arity"
+        for c in ast.walk(n))]
+    if len(loops) != 1:
+        raise Unsupported(f"{len(loops)} arity-check loops in _create_cache")
+    lp = loops[0]
+    it_ = lp.iter
+    if not (isinstance(it_, ast.Call) and isinstance(it_.func, ast.Attribute) and it_.func.attr == "chain"):
+        raise Unsupported("arity-check loop does not iterate it.chain(...)")
+    names = []
+    for a in it_.args:
+        if not (isinstance(a, ast.Call) and isinstance(a.func, ast.Attribute) and a.func.attr == "items"):
+            raise Unsupported("chain operand is not <x>.items()")
+        v = a.func.value
+        if isinstance(v, ast.Name):
+            names.append(v.id)
+        elif _is_self_attr(v):
+            names.append(v.attr)
+        else:
+            raise Unsupported("chain operand")
+    body = lp.body
+    if not (len(body) == 1 and isinstance(body[0], ast.If) and isinstance(body[0].test, ast.UnaryOp)
+            and isinstance(body[0].test.op, ast.Not) and len(body[0].body) == 1 and isinstance(body[0].body[0], ast.Raise)):
+        raise Unsupported("shape of the arity-check loop body")
+    exc = _raised(body[0])[2:]
+    # the loop must come before the dependency sort
+    sort_line = next((n.lineno for n in ast.walk(cc) if isinstance(n, ast.Call) and isinstance(n.func, ast.Name)
+                      and n.func.id == "_sort_dependencies"), None)
+    if sort_line is None:
+        raise Unsupported("_sort_dependencies call not found in _create_cache")
+    return names, exc, lp.lineno < sort_line
+
+
+def _ev_lean(e):
+    k = e[0]
+    if k == "I":
+        return f'.ins "{e[2:]}"'
+    if k == "R":
+        return ".rem"
+    if k == "C":
+        _, c, how = e.split(":")
+        return f'.cwrite "{c}" "{how}"'
+    if k == "W":
+        return ".write"
+    if k == "G":
+        return f'.guard "{e[2:]}"'
+    if k == "K":
+        return f'.check "{e[2:]}"'
+    if k == "P":
+        return f".call .{e[2:]}"
+    if k == "L":
+        return f'.load "{e[2:]}"'
+    raise Unsupported(f"event {e}")
+
+
+def _strs(l):
+    return "[" + ", ".join(f'"{x}"' for x in l) + "]"
+
+
+def render(rows, eqf, arity_body, chain) -> str:
     names = [r["name"] for r in rows]
     L = []
     L.append("-- GENERATED by translate/c03.py from src/mxlpy/model.py (class Model); do not edit")
@@ -219,6 +460,15 @@ def render(rows) -> str:
     L.append("")
     L.append("inductive FirstWrite where")
     L.append("  | id | container | component | delegate | none")
+    L.append("deriving DecidableEq, Repr, Inhabited")
+    L.append("")
+    L.append("/-- one statement-level event of a mutator body, in source order: `_insert_id(ctx=…)`, `_remove_id`, a write to")
+    L.append("    an own container (`set` = item assignment, `del`, `pop`), a write to a component object, a rejecting")
+    L.append("    statement with the classes it raises, a `_check_*` helper, a call of another public mutator, a subscript")
+    L.append("    load of an own container (KeyError for an unknown name) -/")
+    L.append("inductive Ev where")
+    L.append("  | ins (ctx : String) | rem | cwrite (container how : String) | write | guard (raises : String)")
+    L.append("  | check (helper : String) | call (m : Mut) | load (container : String)")
     L.append("deriving DecidableEq, Repr, Inhabited")
     L.append("")
     L.append("/-- `@_invalidate_cache` is in the decorator list -/")
@@ -246,18 +496,70 @@ def render(rows) -> str:
     for r in rows:
         L.append(f"  | .{r['name']} => [" + ", ".join("." + d for d in r["delegates"]) + "]")
     L.append("")
-    L.append("/- event strings, for the reader (I=_insert_id R=_remove_id C=container write W=component write")
-    L.append("   G=rejecting statement K=_check_* helper P:m=call of mutator m):")
+    L.append("/-- the whole body as an event list, in source order -/")
+    L.append("def script : Mut → List Ev")
     for r in rows:
-        L.append(f"   {r['name']}: {' '.join(r['events'])}")
-    L.append("-/")
+        L.append(f"  | .{r['name']} => [" + ", ".join(_ev_lean(e) for e in r["events"]) + "]")
+    L.append("")
+    L.append("/-- rejecting statements AFTER the first write (a call rejected there would be half applied) -/")
+    L.append("def lateGuards : Mut → Nat")
+    for r in rows:
+        L.append(f"  | .{r['name']} => {r['late_guards']}")
+    L.append("")
+    L.append("/-- exception classes raised by the explicit rejecting statements before the first write -/")
+    L.append("def raisesBefore : Mut → List String")
+    for r in rows:
+        L.append(f"  | .{r['name']} => {_strs(r['raises_before'])}")
+    L.append("")
+    L.append("/-- own containers subscripted with the name (KeyError when unknown) before the first write -/")
+    L.append("def loadsBefore : Mut → List String")
+    for r in rows:
+        L.append(f"  | .{r['name']} => {_strs(r['loads_before'])}")
+    L.append("")
+    L.append("/-- the `ctx=` literals of the `_insert_id` calls, in source order (the values of `Model.ids`) -/")
+    L.append("def ctx : Mut → List String")
+    for r in rows:
+        L.append(f"  | .{r['name']} => {_strs(r['ctx'])}")
+    L.append("")
+    L.append("/-- own containers written, in source order -/")
+    L.append("def containers : Mut → List String")
+    for r in rows:
+        L.append(f"  | .{r['name']} => {_strs(r['containers'])}")
+    L.append("")
+    L.append("/-- dataclass fields of `Model` that the generated `__eq__` compares (no `compare=False`) -/")
+    L.append(f"def eqFields : List String := {_strs(eqf)}")
+    L.append("")
+    L.append("/-- what `inspect.getfullargspec` tells `_check_function_arity` about a function: number of positional")
+    L.append("    parameters, length of `defaults` (none = `None`), number of keyword-only parameters, `*args` present -/")
+    L.append("structure Sig where")
+    L.append("  nargs : Nat")
+    L.append("  defaults : Option Nat := none")
+    L.append("  kwonly : Nat := 0")
+    L.append("  varargs : Bool := false")
+    L.append("deriving DecidableEq, Repr, Inhabited")
+    L.append("")
+    L.append("/-- the module-level `_check_function_arity(function, arity)`, statement by statement -/")
+    L.append("def checkFunctionArity (sig : Sig) (arity : Nat) : Bool :=")
+    L.append("  " + arity_body)
+    L.append("")
+    L.append("/-- the dictionaries whose functions `_create_cache` checks, in the order of its `it.chain(...)` -/")
+    L.append(f"def arityChecked : List String := {_strs(chain[0])}")
+    L.append("")
+    L.append("/-- the exception the sanity-check loop raises -/")
+    L.append(f'def arityError : String := "{chain[1]}"')
+    L.append("")
+    L.append("/-- the sanity-check loop precedes the dependency sort (its exception wins over a missing dependency) -/")
+    L.append(f"def arityBeforeSort : Bool := {'true' if chain[2] else 'false'}")
+    L.append("")
     L.append("end Mxl.C03.Gen")
     return "\n".join(L) + "\n"
 
 
 def generate(repo: Path, outdir: Path) -> None:
-    rows = extract(Path(repo) / "src" / "mxlpy" / "model.py")
-    text = render(rows)
+    src = Path(repo) / "src" / "mxlpy" / "model.py"
+    rows = extract(src)
+    tree, cls = _model_class(src)
+    text = render(rows, eq_fields(cls), check_function_arity(tree), arity_checked(cls))
     outdir.mkdir(parents=True, exist_ok=True)
     out = outdir / "C03Mutators.lean"
     if not out.exists() or hashlib.sha1(out.read_bytes()).hexdigest() != hashlib.sha1(text.encode()).hexdigest():
